@@ -284,6 +284,8 @@ def conditions(tier):
         if nstr == 0:
             lens_list = [[]]
         for lens in lens_list:
+            if sum(lens) > 4:
+                continue  # the harness has four symbolic code points
             nm = f"data/{sk}" + ("-" + "".join(map(str, lens)) if lens else "")
             conds.append({"name": nm, "func": "ident_history", "shard": {"sk": sk, "k": 0, "lens": lens, "data": "symbolic", "small_ints": 1}, "timeout": 300 if tier == "quick" else 1200})
         # (b) histories: symbolic operation sequence (first operation
